@@ -1,2 +1,22 @@
-(* C06 *)
-From WaxModel Require Import Base.
+(* C06 -- Rule checking accepts exactly the well-formed expressions, context-free (first lemmas: two of the
+   documented rules hold of every glob that builds, at every nesting depth). *)
+From WaxModel Require Import Base Token Variance Fold Rule.
+From WaxProofs Require Import RuleFacts.
+
+(* repetition bounds are ordered and non-degenerate at every depth of a glob that builds *)
+Theorem C06_built_bounds_ordered :
+  forall t, check t = Ok None -> Forall (fun x => bad_bounds x = false) (bfs t).
+Proof. exact check_bounds. Qed.
+Print Assumptions C06_built_bounds_ordered.
+
+(* no concatenation of a glob that builds has two adjacent boundary tokens *)
+Theorem C06_built_no_adjacent_boundary :
+  forall t, check t = Ok None ->
+    Forall (fun x => match x with TCat _ ts => adjacent_boundary ts = None | _ => True end) (bfs t).
+Proof. exact check_boundary. Qed.
+Print Assumptions C06_built_no_adjacent_boundary.
+
+Theorem C06_adjacent_boundary_none :
+  forall l a b r, adjacent_boundary (l ++ a :: b :: r) = None -> is_boundary a && is_boundary b = false.
+Proof. exact adjacent_boundary_none. Qed.
+Print Assumptions C06_adjacent_boundary_none.
